@@ -74,7 +74,7 @@ func (c15) Info(t core.Tier) core.Info {
 		Level: "exploration",
 		Rule: fmt.Sprintf("EXHAUSTIVE dispatch table: %d methods x %d Content-Type values (absent, json, json with charset, upper/mixed case, whitespace before ';', form, form with parameters, text/plain, multipart, jsonx ...) x %d bodies (valid JSON object, every 3rd truncation of it, array / string / number / null / {} / nested, valid form, bad escapes, ';', empty) x %d query strings (none, disjoint, overlapping, repeated keys, k[], bad escapes) = %d requests, each with a distinct sentinel value per source so the source read is identified from the parsed values. "+
 			"expected source from the statement; expected parameter presentation computed independently with net/url per net/http's rules (body then query for POST/PUT/PATCH, query only otherwise; repeated or [] names are lists, single ones strings, missing ones absent); JSON bodies decoded with encoding/json. "+
-			"decode failures: exactly one issue, key $root, code invalid_json / invalid_form, recording tests silent, sentinel-prefilled destination intact. {} is compared with the empty record. thorough adds random requests. every table cell is non-trivial; distinct by cell.",
+			"decode failures: exactly one issue, key $root, code invalid_json / invalid_form, recording tests silent, sentinel-prefilled destination intact. {} is compared with the empty record. half of the undecodable requests are repeated through a top-level Ptr(Struct) / Ptr(Struct).NotNil() schema (still exactly that one issue, pointer stays nil); a quarter of the requests have an unknown (-1) or stale (smaller than the body a middleware put in place) ContentLength; flat requests carry `key[]` parameters next to absent fields keyed `key`. thorough adds random requests. every table cell is non-trivial; distinct by cell.",
 			len(c15Methods), len(c15ContentTypes), nb, len(c15Queries), len(c15Methods)*len(c15ContentTypes)*nb*len(c15Queries)),
 		Assumptions: append([]string{"net/url.ParseQuery and encoding/json define what a body/query contains; net/http.Request.ParseForm defines 'the form'", "HTTP methods are case-sensitive (only upper-case methods are enumerated); JSON bodies with trailing data after a complete value are not judged"}, commonAssumptions...),
 		MinDistinct: 1000,
@@ -154,6 +154,19 @@ func c15Request(c *core.Ctx, n *spec.Node, method, ct, body, query string) bool 
 	if ct != "" {
 		r.Header.Set("Content-Type", ct)
 	}
+	bodyNote := "as built by http.NewRequest"
+	switch c.R.Intn(8) {
+	case 0:
+		// chunked upload: the length of the body is not known in advance
+		r.ContentLength = -1
+		bodyNote = "ContentLength=-1 (chunked)"
+	case 1:
+		// a middleware replaced the body (e.g. decompressed it) and left the declared length of the original alone
+		if len(body) > 4 {
+			r.ContentLength = int64(len(body) / 3)
+			bodyNote = fmt.Sprintf("body replaced by a middleware, ContentLength=%d is the length of the original", r.ContentLength)
+		}
+	}
 	calls := 0
 	b := spec.Build(n, &spec.Hooks{OnTest: func(*spec.Node, *spec.Test, any, z.Ctx) { calls++ }})
 	prior := gen.Prefill(c.R, n, true)
@@ -179,7 +192,7 @@ func c15Request(c *core.Ctx, n *spec.Node, method, ct, body, query string) bool 
 		}
 	}()
 	det := func(extra map[string]any) map[string]any {
-		m := map[string]any{"method": method, "content_type": ct, "body": trunc(body, 200), "query": query, "documented_source": kind, "form_pre_parsed_by_middleware": preParsed, "issues": issuesText(o), "destination": obs.Render(o.Dest), "destination_before": obs.Render(prior)}
+		m := map[string]any{"method": method, "content_type": ct, "body": trunc(body, 200), "query": query, "documented_source": kind, "form_pre_parsed_by_middleware": preParsed, "request_body": bodyNote, "issues": issuesText(o), "destination": obs.Render(o.Dest), "destination_before": obs.Render(prior)}
 		for k, v := range extra {
 			m[k] = v
 		}
@@ -206,6 +219,28 @@ func c15Request(c *core.Ctx, n *spec.Node, method, ct, body, query string) bool 
 		if d := obs.Diff(prior, o.Dest, "$"); d != "" {
 			c.Violation("destination-touched-after-decode-failure|"+code, det(map[string]any{"difference": d}))
 			return false
+		}
+		if c.R.Intn(2) == 0 {
+			// the same undecodable request through a top-level pointer schema, optional or NotNil: still exactly that one issue
+			pn := &spec.Node{Kind: spec.Ptr, Elem: c15Schema()}
+			sch := "z.Ptr(<the same struct schema>)"
+			if c.R.Bool() {
+				pn.Mods = []spec.Mod{{Op: spec.MNotNil}}
+				sch += ".NotNil()"
+			}
+			pn.Number()
+			r2, _ := http.NewRequest(method, target, strings.NewReader(body))
+			if ct != "" {
+				r2.Header.Set("Content-Type", ct)
+			}
+			oP := run.Parse(spec.Build(pn, nil), zhttp.Request(r2), nil)
+			c.Eval(1)
+			dp, isPtr := oP.Dest.(obs.PtrV)
+			if oP.Panicked || len(oP.Issues) != 1 || oP.Issues[0].Code != code || oP.Issues[0].Key != "$root" || !isPtr || !dp.Nil {
+				c.Violation("undecodable-body-not-one-top-level-issue|"+code+"|top-level-pointer", det(map[string]any{"schema": sch, "want": "exactly one issue under $root with code " + code + ", destination pointer stays nil",
+					"observed_issues": issuesText(oP), "observed_destination": obs.Render(oP.Dest), "panic": fmt.Sprint(oP.Panic)}))
+				return false
+			}
 		}
 		return true
 	}
